@@ -419,6 +419,15 @@ func c13Hist(e *env, r *rng) {
 				q = []string{"Q", "X", "W", key()}
 			}
 		}
+		if r.chance(1, 25) {
+			// CleanupShuffleShardCache(identifier): a step of its own (no answer), applied to the long-lived client
+			id := pick(r, idents)
+			long.CleanupShuffleShardCache(id)
+			steps = append(steps, "K!"+id)
+			longA = append(longA, "-")
+			freshA = append(freshA, "-")
+			continue
+		}
 		if q[1] == "G" && (rf != 1) {
 			q = []string{"Q", "X", "W", q[2]}
 		}
@@ -867,4 +876,42 @@ func c13Tables(e *env) {
 	fmt.Fprintf(w, "def comparedFields : List String := %s\n", lst(compared))
 	fmt.Fprintf(w, "def refreshedFields : List String := %s\n", lst(refreshed))
 	fmt.Fprintf(w, "def refreshedFieldsLookback : List String := %s\n", lst(refreshedLB))
+	// how RingCompare USES every proto field: the real function is run on two one-instance descriptors that
+	// differ in exactly that field (E = Equal, S = EqualButStatesAndTimestamps, D = Different)
+	base := ring.InstanceDesc{Id: "i0", Addr: "a", Timestamp: 1, State: ring.ACTIVE, Tokens: []uint32{1, 2}, Zone: "z",
+		RegisteredTimestamp: 5, ReadOnlyUpdatedTimestamp: 7, ReadOnly: false, Versions: map[uint64]uint64{1: 1}}
+	var use []string
+	for _, name := range proto {
+		mod := base
+		mod.Tokens = append([]uint32(nil), base.Tokens...)
+		mod.Versions = map[uint64]uint64{1: 1}
+		f := reflect.ValueOf(&mod).Elem().FieldByName(name)
+		cls := "?"
+		ok := true
+		switch f.Kind() {
+		case reflect.String:
+			f.SetString(f.String() + "x")
+		case reflect.Int64, reflect.Int32, reflect.Int:
+			f.SetInt(f.Int() + 1)
+		case reflect.Bool:
+			f.SetBool(!f.Bool())
+		case reflect.Slice:
+			if f.Type().Elem().Kind() == reflect.Uint32 {
+				f.Set(reflect.ValueOf([]uint32{1, 3}))
+			} else {
+				ok = false
+			}
+		case reflect.Map:
+			f.Set(reflect.ValueOf(map[uint64]uint64{1: 2}))
+		default:
+			ok = false
+		}
+		if ok {
+			a := &ring.Desc{Ingesters: map[string]ring.InstanceDesc{"i0": base}}
+			b := &ring.Desc{Ingesters: map[string]ring.InstanceDesc{"i0": mod}}
+			cls = c13CmpCode(a.RingCompare(b))
+		}
+		use = append(use, "("+strconv.Quote(name)+", "+strconv.Quote(cls)+")")
+	}
+	fmt.Fprintf(w, "def fieldUse : List (String × String) := [%s]\n", strings.Join(use, ", "))
 }
